@@ -612,12 +612,36 @@ def constructors_validate(rep, prog, rule):
     rep.floor(rule, "cropped-view aggregates", n, 6)
 
 
+_RECT_VALIDATORS = {}
+
+
+def _is_rect_validator(prog, c):
+    """the validator of integer rectangles, recognised by its shape rather than by its name:
+    a crate-local function of six u32 parameters (image width / height, left, top, width,
+    height) that returns Result<(), CropBoxError>"""
+    key = id(prog)
+    if key not in _RECT_VALIDATORS:
+        ids = set()
+        for g in prog.fns.values():
+            if g.kind == "closure" or g.arg_count != 6:
+                continue
+            out = g.d.get("output") or ""
+            if "CropBoxError" in out and out.replace(" ", "").startswith(("std::result::Result<(),", "Result<(),")) \
+                    and all((g.local_ty(i) or "") == "u32" for i in range(1, 7)):
+                ids.add(g.id)
+        _RECT_VALIDATORS[key] = ids
+    tg = prog.call_targets(c)
+    if len(tg) == 1 and tg[0].id in _RECT_VALIDATORS[key]:
+        return True
+    return c.name.endswith("check_crop_box")
+
+
 def _check_crop_box_args(prog, f, sym, c, depth=0):
     """the arguments check_crop_box receives when call c is made: c calls it directly, or calls
     a crate-local wrapper whose result is the result of (a wrapper of) check_crop_box; the
     wrapper's parameters are replaced by c's arguments. None otherwise"""
     args = [sym.operand(a, (c.bb, "term")) for a in c.args]
-    if c.name.endswith("check_crop_box"):
+    if _is_rect_validator(prog, c):
         return args
     if depth > 2:
         return None
